@@ -41,6 +41,7 @@ def expected_points(sc, trans, step, cfg_after):
 
 class C08(InterpProp):
     id = 'C08'
+    decoy = 0.15
     # observables compared with the model (see InterpProp.normalize)
     cmp_eff = ('cond', 'exit', 'action', 'entry')
     cmp_step = ()
@@ -93,8 +94,10 @@ class C08(InterpProp):
         case.payload['record_old'] = True     # the implementation-side `__old__` channel (oracle 3)
         n = self._n
         ops = case.payload['ops']
-        ops[0][3] = [['k%d' % i, True] for i in range(n)]
-        execs = [i for i, op in enumerate(ops) if op[0] == 'exec']
+        for op in ops:
+            if op[0] == 'create':       # (the decoy interpreter, if any, gets the same flags)
+                op[3] = [['k%d' % i, True] for i in range(n)]
+        execs = [i for i, op in enumerate(ops) if op[0] == 'exec' and op[1] == 0]
         if n and execs:
             # choose the injection from the baseline run on the implementation: a condition that is
             # evaluated during the chosen step (falls back to a random one)
@@ -141,7 +144,7 @@ class C08(InterpProp):
         ops = case.payload.get('base_ops', case.payload['ops'])
         # (1) documented points on the baseline (while no error occurred)
         for k, (op, ob) in enumerate(zip(ops, base['obs'])):
-            if op[0] != 'exec':
+            if op[0] != 'exec' or op[1] != 0:
                 continue
             r = ob['r']
             if r['outcome'] == 'error':
@@ -166,7 +169,7 @@ class C08(InterpProp):
         #     interpreter asked for the preconditions of that very state / transition (the entry, the start)
         snaps = {}
         for k, (op, ob) in enumerate(zip(ops, base['obs'])):
-            if op[0] != 'exec':
+            if op[0] != 'exec' or op[1] != 0:
                 continue
             bad = False
             for e in ob['r'].get('oldchk', []):
